@@ -255,6 +255,15 @@ func (x *Exec) loopEnv(st *State, fr *Frame, h *ssa.BasicBlock, lc *LoopContract
 			if old, dup := vars[phi.Comment]; !dup || old.S == "" {
 				vars[phi.Comment] = v
 			}
+			// the index and the ranged slice of an enclosing range loop stay reachable as <name>_outer
+			if isLoopHeader(phi.Block()) && loopBlocks(phi.Block())[h] {
+				vars[phi.Comment+"_outer"] = v
+				if phi.Comment == "rangeindex" {
+					if rs, ok := x.rangeSliceOf(fr, phi.Block()); ok {
+						vars["$rangeslice_outer"] = rs
+					}
+				}
+			}
 		}
 	}
 	for _, ins := range h.Instrs {
@@ -265,17 +274,8 @@ func (x *Exec) loopEnv(st *State, fr *Frame, h *ssa.BasicBlock, lc *LoopContract
 		}
 	}
 	// $rangeslice: the slice a range-over-slice loop iterates (the operand of the len() bounding rangeindex)
-	for _, ins := range h.Instrs {
-		if cmp, ok := ins.(*ssa.BinOp); ok && cmp.Op == token.LSS {
-			if lc, ok := cmp.Y.(*ssa.Call); ok {
-				if bi, ok := lc.Call.Value.(*ssa.Builtin); ok && bi.Name() == "len" && len(lc.Call.Args) == 1 {
-					if v, ok := fr.vals[lc.Call.Args[0]]; ok {
-						v.T = lc.Call.Args[0].Type()
-						vars["$rangeslice"] = v
-					}
-				}
-			}
-		}
+	if rs, ok := x.rangeSliceOf(fr, h); ok {
+		vars["$rangeslice"] = rs
 	}
 	// named SSA values visible by their names (t5 ...) for advanced invariants
 	if lc != nil {
@@ -481,4 +481,21 @@ func (x *Exec) structClassesOf(st *State, v ssa.Value, mods map[string]bool) boo
 		return true
 	}
 	return add(p.Elem(), 0)
+}
+
+// rangeSliceOf finds the slice value a range-over-slice loop with header h iterates over.
+func (x *Exec) rangeSliceOf(fr *Frame, h *ssa.BasicBlock) (Val, bool) {
+	for _, ins := range h.Instrs {
+		if cmp, ok := ins.(*ssa.BinOp); ok && cmp.Op == token.LSS {
+			if lc, ok := cmp.Y.(*ssa.Call); ok {
+				if bi, ok := lc.Call.Value.(*ssa.Builtin); ok && bi.Name() == "len" && len(lc.Call.Args) == 1 {
+					if v, ok := fr.vals[lc.Call.Args[0]]; ok {
+						v.T = lc.Call.Args[0].Type()
+						return v, true
+					}
+				}
+			}
+		}
+	}
+	return Val{}, false
 }
